@@ -252,9 +252,48 @@ def namebound(run, fx):
         run.broken('VALIDATOR', 'name string read pointer', 'no m_nameData + offset pointer found in NameTable::getName', fn.where())
 
 
+def narrowinit(run, fx):
+    """an offset or size computed from a count read from the font (`header + sizeof(T) * (count + 1)`) must not be held in a type it
+    can overflow: no local of at most 16 bits in src/ is initialised, by an implicit narrowing conversion, from a wider non-constant
+    sum / product / shift.  (Silf::readClassOffsets<uint16> kept the class-data base in a uint16: defect F20, repaired.)  The validators
+    that follow such a value compare against the wrapped number, so every later bound is void."""
+    from .cfg import int_type
+    n, seen = 0, set()
+    for fn in fx.all_fns():
+        if not fn.file.startswith('src/') or fn.f.get('implicit'):
+            continue
+        for _, e in fn.elements():
+            if e['k'] != 'DeclStmt':
+                continue
+            for x in e.get('decls', []):
+                if x.get('init') is None:
+                    continue
+                n += 1
+                c = fn.N(x['init'])
+                if c['k'] != 'ImplicitCastExpr' or c.get('ck') != 'IntegralCast' or c.get('v') is not None:
+                    continue
+                src = fn.N(c['c'][0])
+                tt, ft = int_type(x.get('t') or c.get('t')), int_type(src.get('t'))
+                inner = fn.strip_all_casts(src)
+                if not (tt and ft and tt[0] < ft[0] and tt[0] <= 16 and inner['k'] == 'BinaryOperator' and inner['op'] in ('*', '+', '<<')):
+                    continue
+                key = (fn.file, e['ln'], x.get('n'))
+                if key in seen:
+                    continue
+                seen.add(key)
+                run.violated('VALIDATOR', 'no computed size is narrowed into a 16-bit local: %s in %s' % (x.get('n'), fn.q.split('graphite2::')[-1].split('<')[0]), fn.loc(e),
+                             '`%s %s = %s` converts a %d-bit sum/product to %d bits without a test: for large counts the value wraps, and the range tests made against it '
+                             '(and everything read under them) are off by 2^%d' % (x.get('t'), x.get('n'), fn.render(inner)[:80], ft[0], tt[0], tt[0]))
+    if n < 1000:
+        run.broken('VALIDATOR', 'no computed size is narrowed into a 16-bit local', 'only %d initialised locals were scanned' % n)
+    elif not seen:
+        run.held('VALIDATOR', 'no computed size is narrowed into a 16-bit local', '', '%d initialised locals scanned' % n)
+
+
 def run(run):
     vm = R.get_vm(run)
     fx = vm.fx
+    narrowinit(run, fx)
     namebound(run, fx)
     from . import c13
     c13.narrowread(run, fx)
